@@ -91,7 +91,10 @@ func (c Cfg) Extenders() []goldmark.Extender {
 	case "gfm+footnote":
 		return append(gfm, extension.Footnote)
 	}
-	// "gfm+<ext>": GFM plus one further extension
+	if c.Ext == "footnote+footnote" {
+		return []goldmark.Extender{extension.Footnote, extension.Footnote}
+	}
+	// "gfm+<ext>": GFM plus one further extension (possibly one of its own members a second time)
 	if strings.HasPrefix(c.Ext, "gfm+") {
 		one := c
 		one.Ext = strings.TrimPrefix(c.Ext, "gfm+")
@@ -359,6 +362,7 @@ func docStreams(c *Ctx, o docOpts, f func(stream string, doc []byte)) {
 	// headings and fences with attribute blocks cut off at every point
 	if o.random > 0 {
 		frag := []string{"#id", ".c", "k=v", "k=\"v\"", "k='v'", "k=[1,2]", "k=[1,", "k=", "k", "=", "[", ",", "\"", "}", "{", " ", "data-x=1", "width=3", "1", "-", "k=1.5e", "k=\\\"", "é"}
+		frag = append(frag, attrFrags...)
 		for i := 0; i < o.random/4; i++ {
 			d := c.R.PickS([]string{"# t {", "## t {", "t {", "```go {", "# t {#a} {", "> # q {", "- # l {"})
 			for k := c.R.Intn(6); k > 0; k-- {
